@@ -1491,7 +1491,7 @@ func genFs20(r *Repo) (string, error) {
 			tagged := false
 			if s.Tag != nil {
 				ft, err := fsFunc(r, "p9", "FileMode.FileType")
-				if fsText(s.Tag) != rv+".FileType()" || err != nil || ft.Body == nil || len(ft.Body.List) != 1 {
+				if exprText(s.Tag) != rv+".FileType()" || err != nil || ft.Body == nil || len(ft.Body.List) != 1 {
 					return "", r.Refuse(st.Pos(), "OSMode: switch tag must be %s.FileType()", rv)
 				}
 				fret, ok := ft.Body.List[0].(*ast.ReturnStmt)
@@ -1499,7 +1499,7 @@ func genFs20(r *Repo) (string, error) {
 				if ft.Recv != nil && len(ft.Recv.List) == 1 && len(ft.Recv.List[0].Names) == 1 {
 					frv = ft.Recv.List[0].Names[0].Name
 				}
-				if !ok || len(fret.Results) != 1 || fsText(fsUnparen(fret.Results[0])) != frv+" & FileModeMask" {
+				if !ok || len(fret.Results) != 1 || exprText(fsUnparen(fret.Results[0])) != frv+" & FileModeMask" {
 					return "", r.Refuse(ft.Pos(), "FileType is not `m & FileModeMask`")
 				}
 				tagged = true
